@@ -4,6 +4,8 @@ package c01
 import (
 	"fmt"
 	"io"
+	"os"
+	"runtime"
 	"sort"
 	"strings"
 	"testing"
@@ -127,6 +129,9 @@ func readBack(ms *yang.Modules, st *stats) {
 
 const caseBound = 60 * time.Second
 
+// memBound: inputs are at most 64 KiB; a heap of this size means memory use is not bounded by the input.
+const memBound = 1 << 30
+
 func check(c Case) (o ev.Outcome) {
 	total := 0
 	for _, f := range c.Files {
@@ -145,12 +150,31 @@ func check(c Case) (o ev.Outcome) {
 		defer close(done)
 		ev.Guard(&inner, "load/process/read", func() { script(c, &st) })
 	}()
-	select {
-	case <-done:
-	case <-time.After(caseBound):
-		o.Violate("bounded-time", "C01/hang/"+c.Gen, "the case did not finish within %v (inputs of %d bytes normally take about a millisecond)", caseBound, total)
-		o.NonTrivial = true
-		return
+	deadline := time.After(caseBound)
+	tick := time.NewTicker(50 * time.Millisecond)
+	defer tick.Stop()
+wait:
+	for {
+		select {
+		case <-done:
+			break wait
+		case <-deadline:
+			o.Violate("bounded-time", "C01/hang/"+c.Gen, "the case did not finish within %v (inputs of %d bytes normally take about a millisecond)", caseBound, total)
+			o.NonTrivial = true
+			return
+		case <-tick.C:
+			// a case that is still running after 50 ms is watched for runaway memory; the process cannot
+			// take the memory back, so it reports like a fatal error of the runtime and ends (the driver
+			// attributes the death to the case in flight)
+			var m runtime.MemStats
+			runtime.ReadMemStats(&m)
+			if m.HeapAlloc > memBound {
+				buf := make([]byte, 1<<18)
+				buf = buf[:runtime.Stack(buf, true)]
+				fmt.Fprintf(os.Stderr, "fatal error: memory watchdog: heap of %d MiB while handling %d bytes of input\n\n%s\n", m.HeapAlloc>>20, total, buf)
+				os.Exit(2)
+			}
+		}
 	}
 	for _, v := range inner.Violations {
 		v.Sig = "C01/" + v.Sig
@@ -388,7 +412,7 @@ func genTemplate(t *rapid.T) Case {
 		}
 		return fmt.Sprintf(where, s)
 	}
-	switch rapid.SampledFrom([]string{"typedef-cycle", "uses-cycle", "identity-cycle", "include-cycle", "import-cycle", "cross-module-typedef-cycle", "cross-module-uses-cycle", "absent", "lone-submodule", "bad-augment", "bad-deviation", "duplicates", "numbers", "leafref-union-cycle", "choice-case-oddities"}).Draw(t, "template") {
+	switch rapid.SampledFrom([]string{"typedef-cycle", "uses-cycle", "identity-cycle", "include-cycle", "import-cycle", "cross-module-typedef-cycle", "cross-module-uses-cycle", "absent", "lone-submodule", "bad-augment", "bad-deviation", "duplicates", "numbers", "leafref-union-cycle", "choice-case-oddities", "fan-in"}).Draw(t, "template") {
 	case "typedef-cycle":
 		var b strings.Builder
 		for i := 0; i < n; i++ {
@@ -434,15 +458,72 @@ func genTemplate(t *rapid.T) Case {
 		}
 		c.IgnoreCirc = rapid.Bool().Draw(t, "ignore-circular")
 	case "import-cycle":
+		// the prefix of the imports: ordinary, empty, or the importing module's own
+		pfx := rapid.SampledFrom([]string{"o", "o", "\"\"", "self"}).Draw(t, "import-prefix")
 		for i := 0; i < n; i++ {
-			c.Files = append(c.Files, mod(fmt.Sprintf("m%d", i), fmt.Sprintf("import m%d { prefix o; } typedef t { type o:t; } leaf l { type o:t; } grouping g { uses o:g; } uses g; identity i { base o:i; }", cyc(i))))
+			name := fmt.Sprintf("m%d", i)
+			decl, ref := pfx, pfx+":"
+			switch pfx {
+			case "\"\"":
+				ref = ""
+			case "self":
+				decl, ref = name, name+":"
+			}
+			c.Files = append(c.Files, mod(name, fmt.Sprintf("import m%d { prefix %s; } typedef t { type %st; } leaf l { type %st; } grouping g { uses %sg; } uses g; identity i { base %si; } container c { uses %snosuch; } leaf l2 { type %snosuch; } identity j { base %snosuch; }", cyc(i), decl, ref, ref, ref, ref, ref, ref, ref)))
 		}
+	case "fan-in":
+		// every definition refers several times to the one before it: the work must not multiply per level
+		depth := rapid.IntRange(8, 48).Draw(t, "depth")
+		fan := rapid.IntRange(2, 3).Draw(t, "fan")
+		var b strings.Builder
+		switch rapid.SampledFrom([]string{"typedef-union", "identity-bases", "leaf-union"}).Draw(t, "fan-kind") {
+		case "typedef-union":
+			base := rapid.SampledFrom([]string{"type nosuch;", "type uint8 { range \"5..1\"; }", "type string;", fmt.Sprintf("type f%d;", depth), "type zz:t;", "type string { pattern \"(\"; }", "type leafref { path \"../nosuch\"; }"}).Draw(t, "fan-base")
+			fmt.Fprintf(&b, "typedef f0 { %s } ", base)
+			for i := 1; i <= depth; i++ {
+				fmt.Fprintf(&b, "typedef f%d { type union {", i)
+				for j := 0; j < fan; j++ {
+					fmt.Fprintf(&b, " type f%d;", i-1)
+				}
+				b.WriteString(" } } ")
+			}
+			fmt.Fprintf(&b, "leaf l { type f%d; } leaf l2 { type union { type f%d; type f%d; } } ", depth, depth, depth-1)
+		case "identity-bases":
+			base := rapid.SampledFrom([]string{"", "base nosuch;", fmt.Sprintf("base i%d;", depth), "base zz:i;"}).Draw(t, "fan-base")
+			fmt.Fprintf(&b, "identity i0 { %s } ", base)
+			for i := 1; i <= depth; i++ {
+				fmt.Fprintf(&b, "identity i%d {", i)
+				for j := 0; j < fan; j++ {
+					fmt.Fprintf(&b, " base i%d;", i-rapid.IntRange(1, min(i, 2)).Draw(t, "back"))
+				}
+				b.WriteString(" } ")
+			}
+			b.WriteString("leaf l { type identityref { base i0; } } ")
+		default:
+			// one leaf whose union nests the same (broken) typedef reference at every level
+			base := rapid.SampledFrom([]string{"nosuch", "bad", "string"}).Draw(t, "fan-base")
+			b.WriteString("typedef bad { type int8 { range \"1..2..3\"; } } leaf l { ")
+			for i := 0; i < depth; i++ {
+				fmt.Fprintf(&b, "type union { type %s; ", base)
+			}
+			fmt.Fprintf(&b, "type %s; ", base)
+			for i := 0; i < depth; i++ {
+				b.WriteString("} ")
+			}
+			b.WriteString("} ")
+		}
+		c.Files = append(c.Files, mod("m", wrap(b.String())))
 	case "cross-module-typedef-cycle":
 		c.Files = append(c.Files, mod("a", "import b { prefix b; } typedef t { type b:t; } leaf l { type t; }"), mod("b", "import a { prefix a; } typedef t { type a:t; }"))
 	case "cross-module-uses-cycle":
 		c.Files = append(c.Files, mod("a", "import b { prefix b; } grouping g { uses b:g; } container c { uses g; }"), mod("b", "import a { prefix a; } grouping g { uses a:g; }"))
 	case "absent":
-		c.Files = append(c.Files, mod("m", wrap("leaf l1 { type zz:t; } leaf l2 { type nosuch; } uses zz:g; uses nosuch;")+" import absent { prefix ab; } include absentsub; leaf l3 { type ab:t; } identity i { base ab:i; } identity j { base zz:k; } augment \"/ab:c\" { leaf x { type string; } } deviation \"/ab:c\" { deviate not-supported; }"))
+		// names of modules that are not loaded, some of which could be taken for paths
+		odd := func(label string) string {
+			return ymodel.Q(rapid.SampledFrom([]string{"absent", "absent", "absent", "/dev/zero", "/dev/null", "../m", "./m", "a/b", "m.yang", "/", "", ".", "..", "/proc/self/cmdline", "absent@2020-01-01", "/dev/zero.yang"}).Draw(t, label))
+		}
+		revd := rapid.SampledFrom([]string{"", "", " revision-date 2020-01-01;", " revision-date \"/../../../../dev/zero\";", " revision-date \"\";"}).Draw(t, "absent-revision-date")
+		c.Files = append(c.Files, mod("m", wrap("leaf l1 { type zz:t; } leaf l2 { type nosuch; } uses zz:g; uses nosuch;")+" import "+odd("absent-import")+" { prefix ab;"+revd+" } include "+odd("absent-include")+"; leaf l3 { type ab:t; } identity i { base ab:i; } identity j { base zz:k; } augment \"/ab:c\" { leaf x { type string; } } deviation \"/ab:c\" { deviate not-supported; }"))
 	case "lone-submodule":
 		c.Files = append(c.Files, sub("s", "m", "include s2; import other { prefix o; } typedef t { type o:t; } leaf l { type t; } leaf l2 { type nosuch; } identity i { base j; } leaf r { type identityref { base i; } } grouping g { leaf x { type t; } } uses g; augment \"/m:c\" { leaf y { type string; } } deviation \"/m:l\" { deviate not-supported; } rpc op { input { leaf z { type t; } } }"))
 		if rapid.Bool().Draw(t, "second-lone") {
@@ -497,7 +578,7 @@ func TestCheck(t *testing.T) {
 	ev.Run(t, ev.Spec[Case]{
 		ID:    "C01",
 		Level: "exploration",
-		Rule: "a case is up to 4 (file name, text) pairs and an option triple; the fixed script parses each text generically, loads it into one module set, processes, reads everything back (for every module and submodule: entry tree, GetErrors, Print, namespace lookup, and on every node ReadOnly, Namespace, InstantiatingModule, DefaultValues, Path, kind predicates, lookups of its own path, of '..' chains, of non-existent, mangled and wrongly prefixed paths), processes again and reads back again. Generators: (G1) valid module sets from the schema model with 1-3 statement-level mutations (delete, duplicate or move a statement, replace a keyword by another YANG keyword, a meta-name or an identifier, make an argument refer to itself, a sibling or nothing, hostile numeric arguments, name collisions, dropped files, shuffled load order); (G2) keyword soup: random statement trees over the whole YANG vocabulary, any keyword under any keyword, also at top level; (G3) parametrised hostile templates: reference cycles of length 1-4 over typedefs, groupings/uses, identity bases, includes, imports, within and across modules and at every scope, absent modules and prefixes, submodules without their module, augments of leaf, leaf-list, rpc, choice members, missing and malformed paths, deviations of missing, removed and odd targets with malformed deviate statements, duplicate names and revisions, enormous, negative and empty numeric arguments, degenerate types, choice/case oddities. " +
+		Rule: "a case is up to 4 (file name, text) pairs and an option triple; the fixed script parses each text generically, loads it into one module set, processes, reads everything back (for every module and submodule: entry tree, GetErrors, Print, namespace lookup, and on every node ReadOnly, Namespace, InstantiatingModule, DefaultValues, Path, kind predicates, lookups of its own path, of '..' chains, of non-existent, mangled and wrongly prefixed paths), processes again and reads back again. Generators: (G1) valid module sets from the schema model with 1-3 statement-level mutations (delete, duplicate or move a statement, replace a keyword by another YANG keyword, a meta-name or an identifier, make an argument refer to itself, a sibling or nothing, hostile numeric arguments, name collisions, dropped files, shuffled load order); (G2) keyword soup: random statement trees over the whole YANG vocabulary, any keyword under any keyword, also at top level; (G3) parametrised hostile templates: reference cycles of length 1-4 over typedefs, groupings/uses, identity bases, includes, imports, within and across modules and at every scope, absent modules (also under names that look like paths: /dev/zero, ../m, a/b, m.yang) and prefixes, submodules without their module, augments of leaf, leaf-list, rpc, choice members, missing and malformed paths, deviations of missing, removed and odd targets with malformed deviate statements, duplicate names and revisions, enormous, negative and empty numeric arguments, degenerate types, choice/case oddities, import cycles under ordinary, empty and own prefixes with dangling references, fan-in chains (8-48 definitions each referring 2-3 times to the one before: typedef unions, identity bases, nested unions in one leaf) over a sound, broken or cyclic first definition. " +
 			"Oracle: the script returns (panics are caught and attributed; a fatal runtime error kills the worker and the driver re-runs the case in flight in a fresh process to confirm and attribute it; a case that does not finish within 60 s is a hang). " +
 			"Non-trivial = at least one text of the case is accepted by the generic parser and reaches AST construction; distinct by case",
 		Assumptions: []string{
